@@ -1,8 +1,55 @@
 import Driver.Codec
+import Driver.C10
+import LopdfModel.Model.Edit
 namespace Lopdf.Driver.C11
-open Lopdf Lopdf.Codec
+open Lopdf Lopdf.Codec Lopdf.Driver.C10
 
-/-- protocol operations of property C11: `none` = not an operation of this property. -/
-def handle (op : String) (args : List String) : Option String := none
+def showIdList (l : List ObjId) : String :=
+  toString l.length ++ String.join (l.map fun (n, g) => " " ++ toString n ++ "_" ++ toString g)
+
+def showOut : Out → String
+  | .unit => "unit"
+  | .id (n, g) => "id " ++ toString n ++ "_" ++ toString g
+  | .obj none => "none"
+  | .obj (some o) => "some " ++ showObj o
+  | .ids l => "ids " ++ showIdList l
+  | .err => "err"
+
+/-- parse one operation, return it with the remaining tokens (the document) -/
+def parseOp : List String → Option (Op × List String)
+  | "newid" :: ts => some (.newId, ts)
+  | "add" :: ts => (parseObj ts).map fun (o, r) => (.add o, r)
+  | "set" :: a :: b :: ts => do
+    let n ← a.toNat?; let g ← b.toNat?
+    let (o, r) ← parseObj ts
+    pure (.set (n, g) o, r)
+  | "del" :: a :: b :: ts => do
+    let n ← a.toNat?; let g ← b.toNat?
+    pure (.del (n, g), ts)
+  | "prune" :: ts => some (.prune, ts)
+  | "delzero" :: ts => some (.delZero, ts)
+  | "renum" :: a :: ts => a.toNat?.map fun s => (.renumber s, ts)
+  | "delpages" :: ts => (parseNats ts).map fun (l, r) => (.delPages l, r)
+  | "addcontent" :: a :: b :: c :: ts => do
+    let n ← a.toNat?; let g ← b.toNat?
+    let bs ← bytesOfHex c
+    pure (.addContent (n, g) bs, ts)
+  | _ => none
+
+/-- `step <op> <args…> <doc>` -> `ok <out> | <doc>` / `panic <site>` / `err <e>` -/
+def handle (op : String) (args : List String) : Option String :=
+  match op with
+  | "step" =>
+    some <| match parseOp args with
+    | some (o, rest) =>
+      match parseDoc rest with
+      | some (d, []) =>
+        match step d o with
+        | .ok (d', out) => "ok " ++ showOut out ++ " | " ++ showDoc d'
+        | .panic site => "panic " ++ site
+        | .err e => "err " ++ e
+      | _ => "bad-op"
+    | none => "bad-op"
+  | _ => none
 
 end Lopdf.Driver.C11
